@@ -51,9 +51,11 @@ type Obligation struct {
 type candidate struct {
 	assign  *Assignment
 	model   map[string]interface{}
-	expectP bool // expect a native panic instead of a failed assert
-	ideal   bool // the path involves outputs of an idealised hash: the model may not be realisable
-	infra   bool // the native replay could not be carried out (build failure, no report, desync)
+	expectP bool     // expect a native panic instead of a failed assert
+	ideal   bool     // the path involves outputs of an idealised hash: the model may not be realisable
+	repls   []string // harness contracts (replacements) used on the path
+	skipped string   // the native twin declined to replay (verifSkipReplay marker)
+	infra   bool     // the native replay could not be carried out (build failure, no report, desync)
 }
 
 // InputEntry is one intrinsic call's worth of recorded input.
@@ -71,7 +73,8 @@ type Assignment struct {
 type inputRec struct {
 	kind  string
 	terms []*Term
-	val   int // for len
+	val   int  // for len
+	ghost bool // drawn inside a harness contract (replace.go): not replayed natively
 }
 
 // TraceEvent is one observable step of a run, used by the differential self-test.
@@ -125,6 +128,9 @@ type Explorer struct {
 	hashReg   map[string]*hashEntry
 	hashList  []*hashEntry
 	idealHash bool // some output of an idealised (uninterpreted) hash exists on this path
+
+	replOnPath map[string]bool // harness contracts used on the current path
+	replAll    map[string]bool // ... on any path of this harness
 }
 
 func (e *Explorer) getObl(kind, id string) *Obligation {
@@ -150,6 +156,7 @@ func (e *Explorer) resetPath() {
 	e.hashReg = map[string]*hashEntry{}
 	e.hashList = nil
 	e.idealHash = false
+	e.replOnPath = map[string]bool{}
 }
 
 // ---------- inputs ----------
@@ -199,7 +206,7 @@ func (e *Explorer) newScalar(kind string, w int) *Term {
 
 func (e *Explorer) Input(kind string, w int) *Term {
 	t := e.newScalar(kind, w)
-	e.inputs = append(e.inputs, inputRec{kind: kind, terms: []*Term{t}})
+	e.inputs = append(e.inputs, inputRec{kind: kind, terms: []*Term{t}, ghost: e.In.replDepth > 0})
 	return t
 }
 
@@ -223,7 +230,7 @@ func (e *Explorer) InputVec(kind string, w, n int) []*Term {
 			ts[i] = e.newScalar(kind, w)
 		}
 	}
-	e.inputs = append(e.inputs, inputRec{kind: kind, terms: ts})
+	e.inputs = append(e.inputs, inputRec{kind: kind, terms: ts, ghost: e.In.replDepth > 0})
 	return ts
 }
 
@@ -234,7 +241,7 @@ func (e *Explorer) Len(lo, hi int) int {
 	} else {
 		v = lo + e.Decide(hi-lo+1, nil, "verifLen")
 	}
-	e.inputs = append(e.inputs, inputRec{kind: "len", val: v})
+	e.inputs = append(e.inputs, inputRec{kind: "len", val: v, ghost: e.In.replDepth > 0})
 	return v
 }
 
@@ -268,11 +275,16 @@ func (e *Explorer) assignment(model map[string]*big.Int) (*Assignment, map[strin
 		if ent.V == nil {
 			ent.V = []uint64{}
 		}
-		a.Values = append(a.Values, ent)
 		strs := make([]string, len(ent.V))
 		for j, v := range ent.V {
 			strs[j] = fmt.Sprintf("%#x", v)
 		}
+		if r.ghost {
+			// chosen by a harness contract: the native twin calls the real function instead
+			pretty[fmt.Sprintf("%03d_%s_contract", i, r.kind)] = strs
+			continue
+		}
+		a.Values = append(a.Values, ent)
 		pretty[fmt.Sprintf("%03d_%s", i, r.kind)] = strs
 	}
 	if a.Values == nil {
@@ -519,7 +531,7 @@ func (e *Explorer) Assert(id string, c *Term) {
 		o.candCount++
 		if o.cand == nil {
 			a, pretty := e.assignment(model)
-			o.cand = &candidate{assign: a, model: pretty, ideal: e.idealHash}
+			o.cand = &candidate{assign: a, model: pretty, ideal: e.idealHash, repls: sortedKeys(e.replOnPath)}
 		}
 	default:
 		why := e.one.LastErr
@@ -604,6 +616,15 @@ func (e *Explorer) nextScript() bool {
 
 // panicObligation registers a feasible uncaught panic.
 func (e *Explorer) panicObligation(gp *goPanic) {
+	if gp.blocked {
+		// not a Go panic: the harness goroutine would block forever. Natively that is a hang, so
+		// it cannot be confirmed by replay; it is never a success either.
+		o := e.getObl("panic", "blocked:"+gp.fn)
+		o.trivialOnly = false
+		o.Paths++
+		o.unknown = "a feasible path ends blocked forever (" + gp.msg + "); the harness does not recover verifBlocked and a hang cannot be replayed natively"
+		return
+	}
 	o := e.getObl("panic", "panic:"+gp.fn)
 	o.trivialOnly = false
 	o.Paths++
@@ -620,7 +641,7 @@ func (e *Explorer) panicObligation(gp *goPanic) {
 	switch res {
 	case Sat:
 		a, pretty := e.assignment(model)
-		o.cand = &candidate{assign: a, model: pretty, expectP: true, ideal: e.idealHash}
+		o.cand = &candidate{assign: a, model: pretty, expectP: true, ideal: e.idealHash, repls: sortedKeys(e.replOnPath)}
 		o.candCount++
 	case Unknown:
 		o.unknown = "solver returned unknown for the model of a panicking path"
@@ -677,6 +698,12 @@ func (e *Explorer) Explore(fn *ssa.Function, preIDs []preID) {
 		if end == "drop" {
 			e.dropped++
 		}
+		for k := range e.replOnPath {
+			if e.replAll == nil {
+				e.replAll = map[string]bool{}
+			}
+			e.replAll[k] = true
+		}
 		if e.Cfg.Verbose {
 			e.log("  path %d: %s (%d events, %d steps)", e.paths, end, len(e.events), e.In.steps)
 		}
@@ -720,6 +747,9 @@ func (e *Explorer) finish(confirm func(o *Obligation) (confirmed bool, replayPat
 			case e.Cfg.NoReplay:
 				o.Status = "inconclusive"
 				o.Reason = "counterexample found but native replay disabled"
+			case o.cand.skipped != "":
+				o.Status = "inconclusive"
+				o.Reason = "counterexample found; the native twin declined to replay it (verifSkipReplay: " + o.cand.skipped + ")"
 			case o.cand.ideal && !o.cand.infra:
 				// the solver chose values for uninterpreted hash outputs; the real hash need not
 				// realise them, so a failed replay is not an engine defect - and not a violation
@@ -729,6 +759,9 @@ func (e *Explorer) finish(confirm func(o *Obligation) (confirmed bool, replayPat
 				o.Status = "inconclusive"
 				o.mismatch = true
 				o.Reason = "ENGINE-MISMATCH: solver counterexample did not reproduce natively: " + note
+				if len(o.cand.repls) > 0 {
+					o.Reason += " [the path used harness contracts, whose results the real functions need not be able to produce: " + strings.Join(o.cand.repls, "; ") + "]"
+				}
 			}
 		case o.kind == "reach" && o.reached:
 			o.Status = "valid"
